@@ -260,6 +260,7 @@ type Obligation struct {
 	Cover   bool   // cover check: the goal must be satisfiable (sat expected)
 	Info    bool   // informational cover (reachability of a call site)
 	CoverPre *Obligation
+	ExitCover bool // reachability of one return statement
 	Parts    []Term // the goal as independently checkable parts (one per function exit); nil = single goal
 	FailPart int
 	failParts []int
